@@ -3,7 +3,7 @@ CONSTANTS
   V <- VFixed
   MaxLen = 4
   HistFmts = {"standard", "canonical"}
-  PrintFmts = {"standard", "historical", "canonical"}
+  PrintFmts = {"standard", "canonical"}
 INVARIANT HistRoundTrip
 INVARIANT HistIndependent
 INVARIANT HistWellFormed
